@@ -86,7 +86,7 @@ def prepare(need_mir=True, need_runner=True, need_kani=False):
             info["mir"] = mirp
         if need_runner:
             rdir = os.path.join(VERIF, "runner")
-            hr = src_hash([os.path.join(VERIF, "hooks"), os.path.join(VERIF, "runner", "src")])
+            hr = src_hash([os.path.join(VERIF, "hooks"), os.path.join(VERIF, "runner", "src"), os.path.join(VERIF, "runner", "Cargo.toml")])
             hp = os.path.join(BUILD, "runner.hash")
             binp = os.path.join(BUILD, "target-runner", "debug", "verif-runner")
             if not (os.path.exists(binp) and os.path.exists(hp) and open(hp).read() == hr):
